@@ -52,16 +52,16 @@ func init() {
 		Stages: []stage{two(3000, 100000), hand(40000, 1500000)}}
 	plans["C04"] = plan{Level: "exploration", Assume: handAssume,
 		Rule:   "cases = generated hands with up to 6 negative probes at every wait point (table operation of another phase, action of another seat, unoffered action of the current seat, any action outside a round); every probe must return an error and leave the state JSON (minus updated_at) identical; turn order checked at every turn; non-trivial = hand with at least one probe; counters.probes = probes executed",
-		Stages: []stage{hand(16000, 400000)}}
+		Stages: []stage{two(2000, 60000), hand(16000, 400000)}}
 	plans["C05"] = plan{Level: "exploration", Assume: handAssume,
 		Rule:   "cases = generated hands with tight stacks (raise / short all-in heavy) + every action history of every tiny game (2 seats bankrolls 1..6, 3 seats 1..4; thorough 1..8 / 1..6; blinds 1/2); turn bookkeeping checked at every round closure; non-trivial = hand containing a round with a raise or all-in followed by a further turn",
-		Stages: []stage{tiny, hand(40000, 1500000)}}
+		Stages: []stage{tiny, two(3000, 100000), hand(40000, 1500000)}}
 	plans["C06"] = plan{Level: "exploration", Assume: handAssume,
 		Rule:   "cases = generated hands under all policies (the expected step must succeed, streets in order, no state repeats, step bound 16+n(4+E), result exactly at close, probes after close refused) + invalid start configurations + every action history of every tiny game (the DFS terminating with all leaves closed is the finiteness of every path there); non-trivial = hand with >= 2 streets, a fold-out or an all-in run-out; an invalid start",
-		Stages: []stage{tiny, {Name: "start", Harness: "hand", Test: "TestStartValidation", Mode: "rapid", Quick: 10000, Thorough: 200000}, hand(30000, 1200000)}}
+		Stages: []stage{tiny, {Name: "start", Harness: "hand", Test: "TestStartValidation", Mode: "rapid", Quick: 10000, Thorough: 200000}, two(3000, 100000), hand(30000, 1200000)}}
 	plans["C07"] = plan{Level: "exploration", Assume: append([]string{"game_id / created_at are copied at the fork; updated_at is ignored"}, handAssume...),
 		Rule:   "cases = generated hands advanced in lockstep on four replicas (in-memory; every call through table.NativeBackend; rebuilt from its own JSON at drawn cut points: never/always/random; an independently started second game); states compared as JSON after every operation, error results compared, backend input checked unmodified; non-trivial = hand with >= 10 compared operations that settled after JSON hops",
-		Stages: []stage{hand(10000, 300000)}}
+		Stages: []stage{two(1500, 50000), hand(10000, 300000)}}
 	plans["C10"] = plan{Level: "exploration", Assume: handAssume,
 		Rule:   "cases = (a) engine hands with themed decks, every seat checked on flop, turn, river and at close against the harness' own enumeration of admissible selections (public evaluator + independent reference ranker); (b) direct calls of GetAllPossibleCombinations on drawn hole/board sets; non-trivial = >= 4 board cards and best category >= pair; counters.evaluations_checked = player evaluations checked",
 		Stages: []stage{{Name: "direct", Harness: "cards", Test: "TestC10Direct", Mode: "rapid", Quick: 60000, Thorough: 1500000}, two(2000, 60000), hand(16000, 500000)}}
@@ -79,7 +79,7 @@ func init() {
 		Stages: []stage{{Name: "shuffle", Harness: "hand", Test: "TestShuffle", Mode: "rapid", Quick: 10000, Thorough: 300000}, two(6000, 200000), hand(40000, 1500000)}}
 	plans["C15"] = plan{Level: "exploration", Assume: handAssume,
 		Rule:   "cases = states of generated hands (every 3rd operation in quick, every one in thorough, always at close) x every viewer seat and the observer; the view's JSON text must contain no secret card string, re-inserting the redacted fields must reproduce the state; non-trivial = hand with a burned card or closed with >= 1 folded and >= 2 shown hands; counters.views = views checked",
-		Stages: []stage{hand(6000, 150000)}}
+		Stages: []stage{two(1000, 30000), hand(6000, 150000)}}
 	c02 := plans["C02"]
 	c02.Stages = append(c02.Stages, two(2000, 60000), stage{Name: "hands", Harness: "hand", Test: "TestHand", Mode: "rapid", Quick: 16000, Thorough: 400000})
 	c02.Assume = append(c02.Assume, handAssume...)
